@@ -12,7 +12,7 @@ package main
 //@ // table changes only to a table built from exactly that text; a rejected text changes nothing and the loop goes on
 //@ func watchBackend
 //@   props C01 C02
-//@   requires cfg != nil
+//@   requires cfg != nil && buildReady()
 //@   assigns *
 //@   loop 2 invariant tableBuffer != nil
 //@   loop 2 iteration ensures (activeTable == old(activeTable) && lastTable == old(lastTable)) || (activeTable != nil && builtFrom[activeTable] == svccfg + "\n" + mancfg && lastTable == svccfg + "\n" + mancfg)
